@@ -128,7 +128,7 @@ TYPES = [
     typ("agg", src=[M % "aggregate"], opt=("output_size", "376", "564")),
     typ("chunk_stream", opt=("mtu", "188,1", "376,4")),
     typ("dup", alloc=["new p0 dup", "sub p1 p0"], outp="p1", rel=["p1", "p0"]),
-    typ("genaux", dies=False),
+    typ("genaux", dies=False, incmd="ins {p} 0011223344556677 1 id={id} cr_sys={t}"),
     typ("tblk", src=[M % "convert_to_block"], dies=False),
     # --- defined in harness/pd_ext_c04.c
     typ("buffer", opt=("max_size", "0", "4096")),
@@ -183,6 +183,8 @@ TYPES = [
     typ("sync", data=False, fd=PICFD),
     typ("block_to_sound", alloc=["newf p0 block_to_sound sound.s32." + SATTR], data=False),   # needs a sound ubuf_mgr
     typ("audio_copy", fd=sfd(), incmd=SNDIN, alloc=["newf p0 audio_copy sound.s16." + SATTR], dies=False),
+    # (the blank generators attach a buffer of THEIR OWN format to the reference uref they are given: the flow
+    # tag of that uref says nothing about the buffer - they are driven without data)
     typ("vblk", src=[M % "video_blank"], data=False, fd=PICFD, alloc=["newf p0 vblk pic." + PATTR], dies=False),
     typ("ablk", src=[M % "audio_blank"], data=False, fd=sfd(), alloc=["newf p0 ablk sound.s16." + SATTR]),
     typ("voidsrc", src=[M % "void_source"], data=False, env=PUMP, alloc=["newf p0 voidsrc void. duration=27000"]),
